@@ -3,7 +3,7 @@
  * (c03_dump.h); the Lean driver evaluates the decidable predicate WF on the dump.
  *
  *   c03_wf run <seed> <nmut> <tmpdir> <file>...      all variants of the files
- *   c03_wf one <file> <mutseed> <smpctl> <bypath> <tmpdir> [<otherfile>]   one variant (replay)
+ *   c03_wf one <file> <mutseed> <smpctl> <via 0 mem|1 path|2 FILE|3 callbacks> <tmpdir> [<otherfile>]   one variant (replay)
  *   c03_wf emit <file> <mutseed> [<otherfile>]       print the variant's bytes as hex
  *
  * Every variant is a deterministic function of (file bytes, other file bytes, mutseed);
@@ -113,10 +113,35 @@ static unsigned char *mutate(const unsigned char *src, long n, const unsigned ch
 
 /* ---- one variant ------------------------------------------------------ */
 
+static const char *const via_name[] = { "mem", "path", "file", "cb" };
+
+struct cbmem { const unsigned char *b; long n, pos; };
+static unsigned long cb_read(void *dest, unsigned long len, unsigned long nmemb, void *priv)
+{
+	struct cbmem *c = (struct cbmem *)priv;
+	unsigned long want = len * nmemb, can = (unsigned long)(c->n - c->pos);
+	unsigned long items;
+	if (len == 0 || nmemb == 0) return 0;
+	if (want > can) want = can;
+	items = want / len;
+	memcpy(dest, c->b + c->pos, items * len);
+	c->pos += (long)(items * len);
+	return items;
+}
+static int cb_seek(void *priv, long offset, int whence)
+{
+	struct cbmem *c = (struct cbmem *)priv;
+	long np = whence == SEEK_SET ? offset : whence == SEEK_CUR ? c->pos + offset : c->n + offset;
+	if (np < 0 || np > c->n) return -1;
+	c->pos = np;
+	return 0;
+}
+static long cb_tell(void *priv) { return ((struct cbmem *)priv)->pos; }
+
 static void tag(const char *file, uint64_t mutseed, int smpctl, int bypath, const char *other, const char *what)
 {
 	printf("begin wf file=%s mutseed=%llu smpctl=%d via=%s other=%s what=%s\n", file,
-	       (unsigned long long)mutseed, smpctl, bypath ? "path" : "mem", other ? other : "-", what);
+	       (unsigned long long)mutseed, smpctl, via_name[bypath & 3], other ? other : "-", what);
 }
 
 static void delta_dump(struct context_data *ctx)
@@ -145,7 +170,24 @@ static int run_variant(const char *file, const unsigned char *bytes, long n, uin
 
 	if (smpctl)
 		xmp_set_player(opaque, XMP_PLAYER_SMPCTL, XMP_SMPCTL_SKIP);
-	if (bypath) {
+	if (bypath == 2) {
+		/* FILE* entry point: the bytes through a temporary file */
+		FILE *f = tmpfile();
+		if (f == NULL) {
+			xmp_free_context(opaque);
+			return -99;
+		}
+		fwrite(bytes, 1, n, f);
+		rewind(f);
+		rc = xmp_load_module_from_file(opaque, f, n);
+		fclose(f);
+	} else if (bypath == 3) {
+		struct cbmem c;
+		struct xmp_callbacks cbs;
+		c.b = bytes; c.n = n; c.pos = 0;
+		cbs.read_func = cb_read; cbs.seek_func = cb_seek; cbs.tell_func = cb_tell; cbs.close_func = NULL;
+		rc = xmp_load_module_from_callbacks(opaque, &c, cbs);
+	} else if (bypath) {
 		if (mutseed == 0) {
 			snprintf(path, sizeof(path), "%s", file);
 		} else {
@@ -176,7 +218,7 @@ static int run_variant(const char *file, const unsigned char *bytes, long n, uin
 		rc = xmp_load_module_from_memory(opaque, bytes, n);
 	}
 	printf("load rc=%d file=%s mutseed=%llu smpctl=%d via=%s\n", rc, file, (unsigned long long)mutseed, smpctl,
-	       bypath ? "path" : "mem");
+	       via_name[bypath & 3]);
 	if (rc == 0) {
 		/* the public view is the one we dump */
 		xmp_get_module_info(opaque, &mi);
@@ -264,6 +306,9 @@ int main(int argc, char **argv)
 			archive = (rc_mem != 0 && rc_path == 0);
 			if (archive)
 				run_variant(file, src, n, 0, 1, 1, NULL, 0);
+			/* the two other entry points */
+			run_variant(file, src, n, 0, (int)(seed & 1), 2, NULL, 0);
+			run_variant(file, src, n, 0, (int)(~seed & 1), 3, NULL, 0);
 			for (k = 0; k < nmut; k++) {
 				uint64_t ms = fnv1a(FNV_INIT ^ seed, file, strlen(file)) * 2654435761ULL + (uint64_t)k * 977 + 1;
 				long m;
@@ -273,7 +318,8 @@ int main(int argc, char **argv)
 				if (ms == 0) ms = 1;
 				b = mutate(src, n, oth, on, ms, &m, kind);
 				printf("mutant kind=%s\n", kind);
-				rc = run_variant(file, b, m, ms, (int)(ms >> 7) & 1, archive, other, (k % 2) ? 1 : 0);
+				rc = run_variant(file, b, m, ms, (int)vrng_below(2), archive ? 1 : (k % 3 == 2 ? 2 + (int)vrng_below(2) : 0),
+						 other, (k % 2) ? 1 : 0);
 				(void)rc;
 				free(b);
 			}
